@@ -6,7 +6,7 @@
    interleaving of create (serialised or overlapped) / control / destroy / cleanup / kill requests
    and task deaths, any oracle values (launch outcomes, refusals, failing stage of a creation), executor / agent failures
    (OFail: the affected tasks keep their parent role but are not locked any more). *)
-From Verif Require Import Gen_CleanupAtomic Common Ownership Teardown OwnSpec OwnInv_proofs OwnThm_proofs.
+From Verif Require Import Gen_CleanupAtomic Gen_ProxyMiss Common Ownership Teardown OwnSpec OwnInv_proofs OwnThm_proofs CacheProxy CacheProxy_proofs.
 Open Scope N_scope.
 
 (* --- "control, release and kill operations issued for one environment never affect tasks owned by
@@ -128,6 +128,24 @@ Theorem C04_detector_conflict : forall s e c s' u d,
   (forall k, In k (o_kills u) -> forall t, In t (s_roster s) -> t_id t = k -> is_locked t = false).
 Proof. exact detector_conflict. Qed.
 Print Assumptions C04_detector_conflict.
+
+(* --- the detectors of an environment are what the configuration glue answers for its hosts: the cache
+       proxy between the core and the inventory (apricot/cacheproxy, on by default) gives the answer of the
+       backend - for every host list, every start-up snapshot and every inventory the snapshot is a part of
+       (hosts added after the core started: cache miss).  What the proxy does on a miss is read off the
+       source (gen/Gen_ProxyMiss.v). *)
+Theorem C04_proxy_is_backend : forall cache i hosts,
+  snapshot_of cache i -> proxy cache i hosts = backend i hosts.
+Proof. exact proxy_is_backend. Qed.
+Print Assumptions C04_proxy_is_backend.
+
+(* --- a proxy whose per-host look-up on a miss does not reach the result answers the empty name for a host
+       added after the snapshot (seeded change C04-6; replayed on the implementation as corpus case
+       late-host-first-use). *)
+Theorem C04_proxy_drop_refuted :
+  proxy_mode 2 [(0, 1)] [(0, 1); (1, 1)] [1] = Some [0] /\ backend [(0, 1); (1, 1)] [1] = Some [1].
+Proof. exact proxy_drop_refuted. Qed.
+Print Assumptions C04_proxy_drop_refuted.
 
 (* --- the same clause over ALL histories is false for the unchanged code: CreateEnvironment reads the
        active detectors at its entry and inserts the environment only after the workflow was loaded;
